@@ -225,10 +225,26 @@ twin('C05', 'pyiga/hierarchical.py', 'pyiga.hierarchical.HSpace.virtual_hierarch
 brk('C18', 'R18.10', 'pyiga/lowrank.py', 'pyiga.lowrank.aca_3d', r"E_mat\[tuple\(I\[1:\]\)\] = 0", 'E_mat[I[1:]] = 0', 'list used as a multi-index')
 twin('C18', 'pyiga/lowrank.py', 'pyiga.lowrank.aca_3d', r"E_mat\[tuple\(I\[1:\]\)\] = 0", 'E_mat[I[1], I[2]] = 0', 'explicit pair of indices')
 brk('C08', 'R08.4', 'pyiga/vform.py', 'pyiga.vform.VForm.dependency_analysis', r"\(isinstance\(v\.src, InputField\) and v\.src\.updatable\)\n\s*or isinstance\(v\.src, Parameter\)", '(isinstance(v.src, InputField) and v.src.updatable)', 'descendants of parameters precomputed again')
+# ---- rules written for defects of the unchanged library that sixth-wave sub-agents reported as asides (all repaired in /repo)
+brk('C07', 'R07.9', 'pyiga/bspline.py', 'pyiga.bspline.BSplineFunc.grid_hessian', r"dtype=np\.result_type\(self\.coeffs\.dtype, float\)", 'dtype=self.coeffs.dtype', 'Hessian buffer inherits an integer coefficient dtype again')
+twin('C07', 'pyiga/bspline.py', 'pyiga.bspline.BSplineFunc.grid_hessian', r"dtype=np\.result_type\(self\.coeffs\.dtype, float\)", 'dtype=np.promote_types(self.coeffs.dtype, np.float64)', 'promotion spelled with promote_types')
+brk('C16', 'R16.8', 'pyiga/operators.py', 'pyiga.operators.make_solver', r"    else:\n        if spd:\n", '    else:\n        if symmetric:\n', 'Cholesky for every symmetric dense matrix again')
+brk('C10', 'R10.7', 'pyiga/assemble.py', 'pyiga.assemble.compute_initial_condition_01', r"bspline\.active_deriv\(kvs\[bdax\], t_start, 1\)", 'bspline.active_deriv(kvs[bdax], 0.0, 1)', 'start of the time axis assumed to be 0 again')
+twin('C10', 'pyiga/assemble.py', 'pyiga.assemble.compute_initial_condition_01', r"t_start, t_end = kvs\[bdax\]\.support\(\)", 'supp = kvs[bdax].support()\n    t_start, t_end = supp[0], supp[1]', 'support unpacked by subscripts')
+brk('C19', 'R19.9', 'pyiga/bspline.py', 'pyiga.bspline.KnotVector.__eq__', r" and\n\s*np\.allclose\(other\.kv, self\.kv, atol=1e-8, rtol=1e-8\)\)", ')', 'one-directional allclose again')
+brk('C03', 'R03.14', 'pyiga/_hdiscr.py', 'pyiga._hdiscr.HDiscretization.assemble_matrix', r"B = B\.tocoo\(\)\n(\s*)coo_I\.append\(rows\[B\.row\]\)\n(\s*)coo_J\.append\(columns\[B\.col\]\)", r"I, J = B.nonzero()\n\1coo_I.append(rows[I])\n\2coo_J.append(columns[J])", 'indices from nonzero(), values from .data again')
+brk('C05', 'R05.10', 'pyiga/bspline.py', 'pyiga.bspline.prolongation', r"spsolve\(C2, C1\)\.reshape\(C1\.shape\)", 'spsolve(C2, C1)', 'one-column result left 1-D again')
+twin('C05', 'pyiga/bspline.py', 'pyiga.bspline.prolongation', r"spsolve\(C2, C1\)\.reshape\(C1\.shape\)", 'spsolve(C2, C1).reshape((kv2.numdofs, kv1.numdofs))', 'shape spelled through the knot vectors')
+brk('C18', 'R18.12', 'pyiga/tensor.py', 'pyiga.tensor.CanonicalTensor.squeeze', r"\n\s*axis = tuple\(i \+ self\.ndim if i < 0 else i for i in axis\)[^\n]*", '', 'negative axes no longer normalised')
+brk('C03', 'R03.15', 'pyiga/_hdiscr.py', 'pyiga._hdiscr.HDiscretization._assemble_level', r"for inp in self\.vf\.inputs \+ self\.vf\.params\}", 'for inp in self.vf.inputs}', 'parameters not handed to the level assembler')
+twin('C03', 'pyiga/_hdiscr.py', 'pyiga._hdiscr.HDiscretization._assemble_level', r"for inp in self\.vf\.inputs \+ self\.vf\.params\}", 'for inp in itertools.chain(self.vf.inputs, self.vf.params)}', 'chained instead of concatenated')
+brk('C11', 'R11.10', 'pyiga/solvers.py', 'pyiga.solvers.local_mg_step', r"x1\[lv_ind\] \+= Bs\[0\]\.dot\(\(f - As\[0\]\.dot\(x1\)\)\[lv_ind\]\)", 'x1[lv_ind] = Bs[0].dot(f[lv_ind])', 'coarsest level overwrites instead of correcting')
+twin('C11', 'pyiga/solvers.py', 'pyiga.solvers.local_mg_step', r"x1\[lv_ind\] \+= Bs\[0\]\.dot\(\(f - As\[0\]\.dot\(x1\)\)\[lv_ind\]\)", 'r0 = f - As[0].dot(x1)\n            x1[lv_ind] += Bs[0].dot(r0[lv_ind])', 'residual through a local')
+brk('C15', 'R15.11', 'pyiga/mlmatrix.py', 'pyiga.mlmatrix.compute_sparsity_ij', r"meshsupp1 = np\.stack\(\(kv1\.kv\[:kv1\.numdofs\], kv1\.kv\[kv1\.p\+1:\]\), axis=1\)\n(\s*)meshsupp2 = np\.stack\(\(kv2\.kv\[:kv2\.numdofs\], kv2\.kv\[kv2\.p\+1:\]\), axis=1\)", r"meshsupp1 = kv1.mesh_support_idx_all()\n\1meshsupp2 = kv2.mesh_support_idx_all()", 'supports as indices into two different meshes again')
 # ---- rules added after the first wave of independently seeded changes (seeded/S01..S08): variants of those changes, and
 #      behaviour-preserving rewrites of the same constructs
-brk('C03', 'R03.7', 'pyiga/_hdiscr.py', 'pyiga._hdiscr.HDiscretization.assemble_matrix', r"(\n(\s*)for lv in range\(max\(0, k - hs\.disparity\), k\):)", r"\1\n\2    if not neighbors[k][lv]:\n\2        continue", 'coarser level skipped inside the accumulation loop')
-twin('C03', 'pyiga/_hdiscr.py', 'pyiga._hdiscr.HDiscretization.assemble_matrix', r"for lv in range\(max\(0, k - hs\.disparity\), k\):", 'for lv in reversed(range(max(0, k - hs.disparity), k)):', 'levels accumulated in the other order (set union commutes)')
+brk('C03', 'R03.7', 'pyiga/_hdiscr.py', 'pyiga._hdiscr.HDiscretization.assemble_matrix', r"(\n(\s*)for lv in range\(k\):)", r"\1\n\2    if not neighbors[k][lv]:\n\2        continue", 'coarser level skipped inside the accumulation loop')
+twin('C03', 'pyiga/_hdiscr.py', 'pyiga._hdiscr.HDiscretization.assemble_matrix', r"for lv in range\(k\):", 'for lv in reversed(range(k)):', 'levels accumulated in the other order (set union commutes)')
 brk('C04', 'R04.6', 'pyiga/hierarchical.py', 'pyiga.hierarchical.HSpace._mark_recursive', r"self\._mark_recursive\(l-self\.disparity, marked, truncate=truncate\)", 'self._mark_recursive(l-1, marked, truncate=truncate)', 'recursion continues on a level other than the one whose marks were extended')
 twin('C04', 'pyiga/hierarchical.py', 'pyiga.hierarchical.HSpace._mark_recursive', r"self\._mark_recursive\(l-self\.disparity, marked, truncate=truncate\)", 'self._mark_recursive(-self.disparity + l, marked, truncate=truncate)', 'commuted level expression')
 brk('C05', 'R05.4', 'pyiga/hierarchical.py', 'pyiga.hierarchical.HSpace.represent_fine', r"Pj\[act_indices\[k\+1\], :\] = 0", 'Pj[self.active_indices()[k+1], :] = 0', 'truncation zeroes the rows of a different index list than the column blocks use')
